@@ -16,6 +16,7 @@ func init() {
 	vrt.Register("C14_context_ops", ContextOps)
 	vrt.Register("C14_exec_shared_template", ExecSharedTemplate)
 	vrt.Register("C14_cache", Cache)
+	vrt.Register("C14_stored_block_shared", StoredBlockShared)
 }
 
 func itoa(n int) string { return strconv.Itoa(n) }
@@ -181,5 +182,36 @@ func Cache() {
 		vrt.Assert(r1 == nil, "concurrent Parse succeeds")
 	}
 	plush.CacheEnabled = false
+	vrt.Cover("done")
+}
+
+// a content block defined once in a shared parent context and rendered from two
+// threads with children of that parent, each with its own data
+func StoredBlockShared() {
+	x, y := vrt.Int(), vrt.Int()
+	parent := plush.NewContext()
+	_, err := plush.Render("<% contentFor(\"b\") { %>[<%= who %>]<% } %>", parent)
+	vrt.Assert(err == nil, "the defining template renders")
+	uses := []string{
+		"<%= contentOf(\"b\", {who: n}) %>",
+		"<%= contentOf(\"b\", {who: n}) %>|<%= contentOf(\"b\", {who: n}) %>",
+		"<%= for (i) in [1] { %><%= contentOf(\"b\", {who: n}) %><% } %>",
+	}
+	t, perr := plush.NewTemplate(uses[vrt.Choice(len(uses))])
+	vrt.Assert(perr == nil, "the using template parses")
+	mk := func(n int) *plush.Context {
+		c := parent.New().(*plush.Context)
+		c.Set("n", n)
+		return c
+	}
+	c1, c2 := mk(x), mk(y)
+	var o1, o2 string
+	var r1, r2 error
+	vrt.Par(func() { o1, r1 = t.Exec(c1) }, func() { o2, r2 = t.Exec(c2) })
+	w1, e1 := t.Exec(mk(x))
+	w2, e2 := t.Exec(mk(y))
+	vrt.Assert(r1 == nil && r2 == nil && e1 == nil && e2 == nil, "every execution renders")
+	vrt.Assert(o1 == w1, "each execution returns what it returns when run alone (first)")
+	vrt.Assert(o2 == w2, "each execution returns what it returns when run alone (second)")
 	vrt.Cover("done")
 }
